@@ -159,12 +159,29 @@ func c10Check(spec2 *vexec.CaseSpec, target *model.Status, orig *vexec.Outcome, 
 			if ex[name] == 0 {
 				add("not-rerun:"+n.Status.String(), "step %s was recorded %q (unfinished part) and its dependencies let it proceed, but the retry did not execute it (ended %q)", name, n.Status.String(), fin.Status)
 			} else {
-				want := "finished"
-				if s.FailFirst != 0 {
-					want = "failed"
+				// attempts of the retry run: scripted failures f, limit L => min(f, L)+1
+				f, L := s.FailFirst, s.RetryLimit
+				if f < 0 || f > L {
+					f = L + 1
 				}
-				if fin.Status != want {
+				wantEx := f + 1
+				want := "finished"
+				if f > L {
+					want = "failed"
+					wantEx = L + 1
+				}
+				midRetry := n.Status == scheduler.NodeStatusNone && n.RetryCount > 0
+				if fin.Status != want && !(midRetry && s.FailFirst > 0) {
+					// (a step recorded in the middle of its retries may or may not get a
+					// fresh budget: only scripts whose outcome does not depend on it are judged)
 					add("retry-outcome", "step %s was re-executed with scripted result %s but ended %q", name, want, fin.Status)
+				}
+				if !midRetry {
+					if ex[name] != wantEx {
+						add("retry-run-attempts", "step %s (retry limit %d, scripted to fail its first %d attempts) was executed %d time(s) by the retry run, expected %d", name, L, s.FailFirst, ex[name], wantEx)
+					} else if fin.RetryCount != ex[name]-1 {
+						add("retry-run-retrycount", "step %s was executed %d time(s) by the retry run but its retry count reads %d", name, ex[name], fin.RetryCount)
+					}
 				}
 			}
 		}
@@ -218,7 +235,7 @@ func paramClass(text string) string {
 
 func c10Body(c *core.Ctx) {
 	vexec.Init()
-	gen := GenOpts{MaxN: 6, Preconds: true, ContinueOn: true, Failures: true, MaxActive: true, Handlers: true}
+	gen := GenOpts{MaxN: 6, Retries: true, Preconds: true, ContinueOn: true, Failures: true, MaxActive: true, Handlers: true}
 	n := c.Pick(500, 12000)
 	if c.Mode != "controlled" {
 		n = c.Pick(60, 1500)
@@ -287,10 +304,14 @@ func c10Body(c *core.Ctx) {
 			spec2.Steps = nil
 			for _, s := range spec.Steps {
 				cp := *s
+				// the retry run executes the RECORDED steps, so the recorded retry policy
+				// applies; it has its own retry budget for every step it re-executes
 				cp.FailFirst = 0
-				cp.RetryLimit = 0
 				if r.Intn(100) < 25 {
 					cp.FailFirst = -1
+				}
+				if cp.RetryLimit > 0 {
+					cp.FailFirst = []int{0, 1, 2, 3, -1}[r.Intn(5)]
 				}
 				if cp.HasPrecond {
 					cp.PrecondUnmet = r.Intn(3) == 0
